@@ -1,15 +1,68 @@
-(* C02 phase 1: the faithful model of the unchanged decoder panics. *)
-From PV Require Import Lib.Base Flat.Model.
+(* C02 — property theorems only. Statements are pinned by vp/check.py. *)
+From PV Require Import Lib.Base Flat.Model Flat.DecSafe Flat.DecTotal C02.Legacy.
 Open Scope Z_scope.
 
-Theorem flat_dec_total_refuted :
-  (exists bs script, bytes_wf bs /\ Forall op_wf script /\ In (Panic P_INDEX) (fst (run_script script (mk_dec bs)))) /\
-  (exists bs script, bytes_wf bs /\ Forall op_wf script /\ In (Panic P_SHIFT) (fst (run_script script (mk_dec bs)))).
+(* Decoding is total: whatever the bytes and whatever sequence of Decoder calls
+   (going on after errors), no call panics: no index or slice range out of
+   bounds, no shift by >= the bit width, no arithmetic overflow. *)
+Theorem flat_dec_total : forall bs script,
+  bytes_wf bs -> Z.of_nat (length bs) < 2 ^ 60 -> Forall op_wf script ->
+  forall r, In r (fst (run_script script (mk_dec bs))) -> forall p, r <> Panic p.
 Proof.
-  split.
-  - exists [], [OBool]. repeat split; [constructor | repeat constructor | vm_compute; auto].
-  - exists (repeat 255 10 ++ [1]), [OWord]. repeat split.
-    + apply bytes_wfb_spec. reflexivity.
-    + repeat constructor.
-    + vm_compute; auto.
+  intros bs script Hw Hl Hs r Hr.
+  exact (proj1 (proj1 (run_script_ok script Hs (mk_dec bs) (dinv_mk_dec bs Hw Hl)) r Hr)).
 Qed.
+
+(* The loop fuel of the model is always sufficient: E_FUEL never comes out, so
+   [flat_dec_total] is not true by truncation of the loops. *)
+Theorem flat_dec_fuel_sufficient : forall bs script,
+  bytes_wf bs -> Z.of_nat (length bs) < 2 ^ 60 -> Forall op_wf script ->
+  forall r, In r (fst (run_script script (mk_dec bs))) -> r <> Err E_FUEL.
+Proof.
+  intros bs script Hw Hl Hs r Hr.
+  exact (proj2 (proj1 (run_script_ok script Hs (mk_dec bs) (dinv_mk_dec bs Hw Hl)) r Hr)).
+Qed.
+
+(* The cursor never leaves the buffer: 0 <= pos <= len, 0 <= used_bits < 8,
+   and used_bits = 0 once pos = len. *)
+Theorem flat_dec_cursor_in_bounds : forall bs script,
+  bytes_wf bs -> Z.of_nat (length bs) < 2 ^ 60 -> Forall op_wf script ->
+  let s := snd (run_script script (mk_dec bs)) in
+  d_buf s = bs /\ 0 <= d_pos s <= Z.of_nat (length bs) /\ 0 <= d_used s < 8 /\
+  (d_pos s = Z.of_nat (length bs) -> d_used s = 0).
+Proof.
+  intros bs script Hw Hl Hs.
+  destruct (run_script_ok script Hs (mk_dec bs) (dinv_mk_dec bs Hw Hl)) as (_ & (H1 & H2 & H3 & _) & Hb).
+  cbn zeta. unfold d_len in *. rewrite Hb in *. cbn [d_buf mk_dec] in *. tauto.
+Qed.
+
+(* flat::decode::<T>(bytes) = T::decode then Filler::decode *)
+Theorem flat_decode_total : forall o bs,
+  bytes_wf bs -> Z.of_nat (length bs) < 2 ^ 60 -> op_wf o -> forall p, flat_decode o bs <> Panic p.
+Proof.
+  intros o bs Hw Hl Ho p. unfold flat_decode.
+  assert (G : good 0 (v <- run_op o ;; dec_filler ;;; ret v)).
+  { apply good_bind0; [apply good_op, Ho|]. intros v.
+    apply good_bind0; [apply good_filler | intros; apply good_ret]. }
+  exact (proj1 (G (mk_dec bs) (dinv_mk_dec bs Hw Hl)) p).
+Qed.
+
+(* History: the three methods as they were before the fix: commits panicked. *)
+Theorem flat_dec_total_refuted_before_fix :
+  fst (dec_bool_legacy (mk_dec [])) = Panic P_INDEX /\
+  fst (dec_word_legacy true (mk_dec (repeat 255 10 ++ [1]))) = Panic P_SHIFT /\
+  fst (dec_word_legacy false (mk_dec (repeat 255 10 ++ [1]))) = Ok (2 ^ 64 - 1) /\
+  fst (dec_bits8_legacy true 0 (mk_dec [255])) = Panic P_SHIFT /\
+  fst (dec_bits8_legacy false 0 (mk_dec [])) = Panic P_INDEX.
+Proof. exact legacy_decoder_panics. Qed.
+
+(* non-vacuity: a script that decodes values, hits errors and goes on *)
+Example flat_dec_example :
+  run_script [OBool; OWord; OBytes; OInteger; OBool; OList OBool; OBits8 3; OBits8 3]
+             (mk_dec [193; 0; 129; 2; 7; 9; 0; 5; 234])
+  = ([Ok (DBool true); Ok (DWord 130); Ok (DBytes [7; 9]); Ok (DInt (-3)); Ok (DBool true);
+      Ok (DList [DBool true]); Ok (DBits 5); Err (E_BITS 3)],
+     mkDec [193; 0; 129; 2; 7; 9; 0; 5; 234] 8 7)
+  /\ fst (run_script [OWord; OBool] (mk_dec (repeat 255 10 ++ [1]))) = [Err E_MSG; Ok (DBool false)]
+  /\ fst (run_script [OBool] (mk_dec [])) = [Err E_END].
+Proof. vm_compute. repeat split. Qed.
